@@ -143,6 +143,22 @@ theorem C12_die_null_loop (o : Opts) (cs : List Chunk) (preB : List Block) (bc :
       · exact ⟨ty, tx, ts ++ [(.end_, [])], rfl, hn⟩)
     (fun _ _ _ => ⟨_, _, _, rfl, rfl⟩) (fun hv => die_null_loop o hv true [] _)
 
+/-- **C12_die_dup_header_name** — a loop header `loop_ ns₁ n'` in which `n'` repeats a name of the block or of `ns₁` (any spelling):
+    the parse is aborted while the header is read — the loop does not exist, the block holds what the items in front denote -/
+theorem C12_die_dup_header_name (o : Opts) (cs : List Chunk) (preB : List Block) (bc : Str) (pre : List Item) (ns1 : List Str) (n' : Str)
+    (rest : List TokSpec)
+    (H : DieHost o cs preB bc (itemsToks pre ++ ((.loopKw, []) :: (ns1.map (fun n => (TokType.name, n)) ++ [(.name, n')]))) rest)
+    (hpre : wfItems o pre [] = true) (hwf : ∀ n ∈ ns1, wfName n = true)
+    (hfresh : ∀ n ∈ ns1, o.norm n ∉ normNames o (denoteItems o.dia o.normKey pre [])) (hnd : (ns1.map o.norm).Nodup)
+    (hname : wfName n' = true)
+    (hdup : o.norm n' ∈ normNames o (denoteItems o.dia o.normKey pre []) ∨ ∃ m ∈ ns1, o.norm m = o.norm n') :
+    DieOutcome o cs CIF_DUP_ITEMNAME (denote o.dia o.normKey (preB ++ [plainBlock bc pre]))
+      ((blocksToks preB).length + 1 + ((itemsToks pre).length + (1 + ns1.length))) :=
+  C12_die_items pre H CIF_DUP_ITEMNAME (1 + ns1.length) (ns1.length + 2) (fun _ => True) hpre (by decide)
+    (by simp only [List.length_cons, List.length_append, List.length_map, List.length_nil]; omega)
+    (by simp only [List.length_cons, List.length_append, List.length_map, List.length_nil]; omega) trivial
+    (fun _ _ _ => ⟨_, _, _, rfl, rfl⟩) (fun hv => die_dup_header_name o hv true ns1 n' [] _ hwf hfresh hnd hname hdup)
+
 /-! ### among the items of a save frame of a data block -/
 
 /-- a defect behind the items `pre` of the save frame `fc`, which stands behind the well-formed elements `preE` of the data block
